@@ -23,7 +23,10 @@ type c13UPath struct {
 	accBad   string     // the action list is written other than by appending
 	visible  *c13Term   // last value stored to <element>.Visible
 	visPos   token.Pos
-	problems []string // effects outside the whitelist
+	problems []string               // effects outside the whitelist
+	bstores  []*c13Event            // writes into blocks allocated by Change itself
+	winUsed  map[types.Object]int64 // slots used per sliding block window
+	blockWhy string                 // an object handed out from a block could not be read back
 
 	// update iterations
 	hist    []*c13Event
@@ -111,7 +114,7 @@ func (m *c13Model) effects(p *c13UPath, out map[types.Object]*c13Term) {
 		switch {
 		case o == nil:
 		case o.key == in.key:
-		case o.op == c13OpApp && o.args[0].key == in.key:
+		case o.op == c13OpApp && (o.args[0].key == in.key || m.lazyBase(p.st, o.args[0], in)):
 			for _, a := range o.args[1:] {
 				p.appended = append(p.appended, x.resolve(p.st, a))
 			}
@@ -127,6 +130,9 @@ func (m *c13Model) effects(p *c13UPath, out map[types.Object]*c13Term) {
 				p.visible, p.visPos = ev.val, ev.pos
 				continue
 			}
+			if m.blockStore(p, ev) {
+				continue
+			}
 			p.problems = append(p.problems, fmt.Sprintf("writes `%s = %s` (%s)", m.show(ev.lhs), m.show(ev.val), m.x.prog.Rel(ev.pos)))
 		case "dyncall":
 			if ev.fn != nil && isIfaceMethod(ev.fn, c13OsmPath+".HistoryDatasourcer") && strings.HasSuffix(ev.fn.Name(), "History") {
@@ -137,6 +143,24 @@ func (m *c13Model) effects(p *c13UPath, out map[types.Object]*c13Term) {
 		case "extcall", "effect":
 			p.problems = append(p.problems, fmt.Sprintf("calls `%s`, whose effects are unknown (%s)", ev.what, m.x.prog.Rel(ev.pos)))
 		}
+	}
+	// objects handed out from blocks are read back from the writes of the path
+	for i, a := range p.appended {
+		if a.op != c13OpLit || a.keys == nil {
+			continue
+		}
+		args := make([]*c13Term, len(a.args))
+		for j, v := range a.args {
+			r, why := m.blockResolve(p, v)
+			if why != "" && p.blockWhy == "" {
+				p.blockWhy = why
+			}
+			args[j] = r
+		}
+		p.appended[i] = x.lit(a.typ, a.keys, args)
+	}
+	if out != nil {
+		m.windowsAdvanced(p, out)
 	}
 }
 
